@@ -150,7 +150,7 @@ func (e *Encoder) writeObject(data interface{}) (int, error) {
 	if !ok {
 		length, _ = e.writeClsDef(typ, clsName)
 	}
-	if byte(length) <= _objectTagMaxLen {
+	if length <= int(_objectTagMaxLen) {
 		e.writeBT(byte(length) + _objectLenTagMin)
 	} else {
 		e.writeBT(_objectTag)
